@@ -35,7 +35,7 @@ BOUNDED_STANDINS = {
     "C05": [("asyncio datagram adapters end to end (DatagramListenerProtocol serve / datagram_received / connection_lost, DatagramEndpoint.recvfrom and the DatagramEndpointProtocol callbacks are under contract; the asyncio queues and futures are models, this run exercises the real ones): every datagram delivered exactly once, in order, across serve() sessions; errors cost one receive", ["drivers/asyncio_datagram.py"], {"quick": "", "thorough": ""}),
             ("one-shot interface of the shipped serializers on the real code: deserialize(serialize(p)) == p through the serializer and DatagramProtocol; malformed / doubled / truncated datagrams", ["drivers/framings.py", "--oneshot"], {"quick": "", "thorough": ""})],
     "C07": [("shipped framings end to end on the real code: raw JSON, zlib / bz2 wrappers, length-prefixed file-based subclass, base64, line, struct - valid in-limit packets and one malformed frame under every chunking tried, both receive paths", ["drivers/framings.py", "--budget"], {"quick": "300000", "thorough": "3000000"})],
-    "C09": [("TLS mode the asynchronous client constructor selects by default (AsyncTCPNetworkClient.__init__ is not under contract): standard-compatible unless explicitly disabled",
+    "C09": [("TLS mode the client constructors select by default (AsyncTCPNetworkClient.__init__ / TCPNetworkClient.__init__ are not under contract): standard-compatible unless explicitly disabled",
              ["drivers/client_tls_defaults.py"], {"quick": "", "thorough": ""})],
     "C11": [("SelectorBaseTransport._retry and the blocking send loops on the real code with a scripted selector and clock, including selectors that wake up LATE "
              "(the contracts model select(w) as returning within w, so 'what is charged is the time that really elapsed' is only sampled here)",
